@@ -1096,6 +1096,66 @@ def rule_optchain_lowering(check):
         check.expect(und, R, R + "/cons", hir.loc(n), "short-circuit value = undefined", "the short-circuited value is not the identifier `undefined`")
         ao = pv.origins(f, flds["alt"])
         check.expect(all(r[0] == "param" and r[2] == 0 for r, p in ao) and bool(ao), R, R + "/alt", hir.loc(n), "otherwise: the lowered chain", "the non-null branch is not the lowered chain expression")
+    # the lowering is discarded (not_modified) only when nothing was hoisted: the visitor rewrites the
+    # chain in place, so a discarded result with assignments would leave references to unassigned temporaries
+    from . import boolform as BF
+
+    def _atomize(fn_, e):
+        e = hir.peel(e)
+        if hir.is_call(e):
+            nm = hir.callee_name(e) or e.get("method")
+            pl = hir.place(hir.call_args(e)[0]) or ""
+            if nm == "is_empty" and pl.endswith(".assignments"):
+                return BF.atom("no-assignments")
+            if nm in ("is_none", "is_some") and pl.endswith(".new_ident"):
+                a = BF.atom("no-ident")
+                return a if nm == "is_none" else BF.neg(a)
+        return None
+
+    nms = [x for x in hir.calls_in(f.body, name="not_modified")]
+    check.floor(R, "not_modified exits of the lowering", len(nms), 1)
+    for x in nms:
+        prem = BF.from_conds(f, f.conds_at(x), _atomize, prog)
+        ok = BF.entails(prem, BF.disj([BF.atom("no-assignments"), BF.atom("no-ident")]))
+        check.expect(ok, R, R + "/discard-only-if-nothing-hoisted", hir.loc(x), "not_modified only if no assignment was made or no temporary was created", "the lowering can be discarded (not_modified) although assignments were hoisted: the chain was already rewritten in place and refers to temporaries that are never assigned")
+    # inside the visitor: once the temporary of the lowering is recorded (new_ident = Some(..)), the
+    # helper hands back the rewritten node - never None, which would leave the chain un-rewritten next
+    # to its hoisted assignment (the optional part evaluated twice)
+    n_rec = 0
+    for g in prog.user_fns:
+        if not (g.rec.get("self_ty") or "").split("<")[0].endswith("OptChainVisitor"):
+            continue
+        for a in g.nodes():
+            if a.get("k") == "Assign" and (hir.place(a["l"]) or "").endswith(".new_ident") and (_ctor_name(hir.peel(a["r"])) or "").split("::")[-1] == "Some":
+                n_rec += 1
+                blk = None
+                for anc in g.ancestors(a):
+                    if anc.get("k") == "Block":
+                        blk = anc
+                        break
+                after = []
+                seen_ = False
+                for st in (blk or {}).get("stmts", []):
+                    e_ = st.get("init") if st["k"] == "Let" else st.get("e")
+                    if e_ is not None and any(y is a for y in hir.walk(e_)):
+                        seen_ = True
+                        continue
+                    if seen_ and e_ is not None:
+                        after.append(e_)
+                if blk is not None and "tail" in blk and seen_:
+                    after.append(blk["tail"])
+                verdict = None
+                for e_ in after:
+                    for y in hir.walk(e_):
+                        if y.get("k") == "Ret" and "x" in y:
+                            verdict = (_ctor_name(hir.peel(y["x"])) or "").split("::")[-1] == "Some"
+                            break
+                    if verdict is not None:
+                        break
+                if verdict is None and after:
+                    verdict = (_ctor_name(hir.peel(after[-1])) or "").split("::")[-1] == "Some"
+                check.expect(bool(verdict), R, "%s/rewritten-node-returned/%s" % (R, g.name), hir.loc(a), "after recording the temporary the helper returns Some(<rewritten node>)", "%s records the temporary of the lowering and then returns None: the chain is left as it was next to its hoisted assignment (evaluated twice, not instrumented)" % g.name)
+    check.floor(R, "places where the lowering records its temporary", n_rec, 2)
     pushes = [x for x in hir.calls_in(f.body, name="push") if (hir.place(hir.call_args(x)[0]) or "").endswith(".assignments")]
     seqs = [x for x in hir.walk(f.body) if x.get("k") == "Struct" and (x["res"].get("path") or "").endswith("SeqExpr")]
     ok = len(pushes) == 1 and len(seqs) == 1 and pushes[0]["id"] < seqs[0]["id"]
